@@ -37,8 +37,9 @@ Print Assumptions C01_library_layer.
    parameters and references to (instantiations of) other definitions, recursion included, `inline`
    on fields of definitions without parameters, `optional` / `optional = nullable` on Option fields and `optional_fields`
    on the container where serde agrees with the `?` — a property whose type does not include null carries
-   skip_serializing_if = "Option::is_none", and only such a field may be left out; no flatten / type / as overrides, which
-   the corpus correspondence covers instead), for EVERY closed type expression — every instantiation
+   skip_serializing_if = "Option::is_none", and only such a field may be left out; no type / as overrides and no flatten of enums or maps, which
+   the corpus correspondence covers instead; `flatten` of a struct with named fields (no tag, no flattened field of its own) into a
+   definition without type parameters, at any position among the fields, the keys of host and flattened structs distinct), for EVERY closed type expression — every instantiation
    of the generic definitions at closed types —, EVERY value and every serde recursion depth: what serde_json emits is, from some evaluation depth on, a member of the TypeScript type
    TS::name() reports, read against the declarations ts-rs generates for that environment. *)
 Theorem C01_derive_layer :
@@ -188,6 +189,33 @@ Example C01_derive_newtype_nonvacuous :
     decl_text C01_example.up C01_example.al is_ascii_digit R 10 d = Ok (lit "type Msg = { ""type"": ""Ping"" } | { ""type"": ""Text"" } & TextMsg;"%string) /\
     ser C01_example.up R 10 C01_newtype.t (VVariant 1 [VStruct [VStr (lit "hi"%string); VInt 2]]) = Some j /\
     json_text j = lit "{""type"":""Text"",""body"":""hi"",""n"":2}"%string /\
+    memberb (env_of C01_example.up C01_example.al is_ascii_digit R 10) 12 a j = true.
+Proof.
+  cbv zeta. split; [vm_compute; reflexivity|]. split; [vm_compute; reflexivity|]. eexists; eexists; eexists.
+  split; [vm_compute; reflexivity|]. split; [vm_compute; reflexivity|]. split; [vm_compute; reflexivity|].
+  split; [vm_compute; reflexivity|]. split; vm_compute; reflexivity.
+Qed.
+
+(* flatten: struct Meta { id: i32, ver: i32 }   #[serde(rename_all = "camelCase")] struct Doc { doc_title: String, #[serde(flatten)] meta: Meta, pages: i32 }
+   — serde writes the flattened fields where the field stands, the declaration lists them after the own ones *)
+Module C01_flatten.
+Import C01_example.
+Definition fl (n : String.string) (t : rty) : field :=
+  {| f_ident := lit n; f_ty := t; f_serde_ty := t; f_rename := None; f_skip := false; f_inline := false;
+     f_flatten := true; f_optional := NotOptional; f_type := None; f_docs := []; f_skip_none := false |}.
+Definition R : env :=
+  [(lit "Meta", DStruct (cat "Meta" None None) (SNamed [fld "id" i32; fld "ver" i32]));
+   (lit "Doc", DStruct (cat "Doc" (Some Camel) None) (SNamed [fld "doc_title" (RLeaf LString); fl "meta" (RNamed (lit "Meta") []); fld "pages" i32]))].
+Definition t : rty := RNamed (lit "Doc") [].
+End C01_flatten.
+
+Example C01_derive_flatten_nonvacuous :
+  let R := C01_flatten.R in
+  plain_envb C01_example.up C01_example.al is_ascii_digit R 10 = true /\ mono_ty R C01_flatten.t = true /\
+  exists a d j, name_of R C01_flatten.t = Ok a /\ Rust.lookup R (lit "Doc"%string) = Some d /\
+    decl_text C01_example.up C01_example.al is_ascii_digit R 10 d = Ok (lit "type Doc = { docTitle: string, pages: number, id: number, ver: number, };"%string) /\
+    ser C01_example.up R 10 C01_flatten.t (VStruct [VStr (lit "t"%string); VStruct [VInt 1; VInt 2]; VInt 9]) = Some j /\
+    json_text j = lit "{""docTitle"":""t"",""id"":1,""ver"":2,""pages"":9}"%string /\
     memberb (env_of C01_example.up C01_example.al is_ascii_digit R 10) 12 a j = true.
 Proof.
   cbv zeta. split; [vm_compute; reflexivity|]. split; [vm_compute; reflexivity|]. eexists; eexists; eexists.
